@@ -44,6 +44,10 @@ class Module:
         self.path = path
         self.source = source
         self.tree = ast.parse(source, filename=path)
+        # locals are renamed to the reference naming (see alpha.py); the
+        # tree stays equivalent to the source
+        from . import alpha
+        self.renamed = alpha.normalise(self.tree, name)
         self.relpath = os.path.relpath(path, REPO)
         for parent in ast.walk(self.tree):
             for child in ast.iter_child_nodes(parent):
